@@ -17,6 +17,7 @@ from formulaic.utils.cast import as_columns
 from formulaic.utils.null_handling import drop_rows as drop_nulls
 
 from .base import FormulaMaterializer
+from .types import FactorValues
 
 if TYPE_CHECKING:  # pragma: no cover
     from formulaic.model_spec import ModelSpec
@@ -80,7 +81,10 @@ class NarwhalsMaterializer(FormulaMaterializer):
             values = drop_nulls(values, indices=drop_rows)
         if spec.output == "sparse":
             # `values` may be a plain sequence (e.g. a list taken from the
-            # evaluation context), which has no `.shape`.
+            # evaluation context), which has no `.shape`; numpy does not see
+            # through the `FactorValues` proxy around one.
+            if isinstance(values, FactorValues):
+                values = values.__wrapped__
             return spsparse.csc_matrix(numpy.array(values).reshape((-1, 1)))
         return values
 
